@@ -327,4 +327,106 @@ example : (runText "median({3, 1/2, -4})").render = "ok 1/2     (0.5)\n" ∧
     (runText "median({})").render = "err funarg" := by
   decide +kernel
 
+/-! ## C12: `range(lo, hi, step)` with a float among the operands -/
+
+/-- **`range(lo, hi, step)` on operands of ANY kind** (ints, Fractions, floats, mixed).  `PIPE_range_step`
+    covers exact operands delivered canonically; with a float the loop's `curr + step` is a floating-point
+    addition (then `simplify_type`: an integral float becomes an int), so the elements are no longer
+    `lo + k·step`.  What is PROVED here, for every kind:
+
+    1. through `dispatch` over the generated registry, `ka_range` is the dispatch-free loop `numKaRange` —
+       the guards compare exactly (a float is compared by its exact value), the next element is Ka's `+` on the
+       kinds at hand (`Num.binop .add`: the registered `operator.add`, then `simplify_type`), the failure
+       classes are the same (FunctionArgError for `step ≤ 0` or `lo > hi`; an overflowing float addition is the
+       OverflowError of `+`);
+    2. when it returns a list, that list is THE list described by `RangeTail`: it starts with `lo` itself, each
+       element does not exceed `hi` (exactly), each next element is the previous one `+ step` as Ka adds them,
+       and the element after the last exceeds `hi`; `0 < step` and `lo ≤ hi` held;
+    3. if every addition along the way happens to be exact in value — always the case for exact operands,
+       canonical or not (`binop_add_exact`); for floats e.g. binary fractions of moderate size — the VALUES are
+       the exact fragment's `Arr.kaRange` on the operands' values, i.e. `lo + k·step` for `k ≤ ⌊(hi−lo)/step⌋`
+       (`C12_range_step`);
+    4. `step ≤ 0` or `lo > hi` is rejected, for every kind, whatever the size.
+
+    What is only CORRESPONDED (stream `arr`, and the whole-program stream): the bits of each floating-point
+    sum (`Float` addition is opaque to the kernel, so whether a given float addition is exact cannot be decided
+    inside Lean), and that the model's iteration bound `⌊(hi−lo)/step⌋ + 3` is enough: with floats it is NOT
+    always (rounding can make the loop advance by less than `step`: the model then answers `diverges` where
+    the code returns a longer list — reported as a model mismatch, see NOTES).
+    Side condition: below the model's size bound `Eval.maxRange`. -/
+theorem PIPE_range_step_float (lo hi step : Num) :
+    (((hi.toRat - lo.toRat) / step.toRat).floor.toNat + 3 ≤ maxRange →
+      dispatchTop "range" [.num lo, .num hi, .num step] [] =
+        match numKaRange lo hi step with
+        | .ok xs => .ok (.arr (xs.map Val.num))
+        | .error e => .error (.err e)) ∧
+    (∀ xs, numKaRange lo hi step = .ok xs →
+      Num.cmpLt (.int 0) step = true ∧ Num.cmpLe lo hi = true ∧ RangeTail hi step lo xs ∧
+      (∀ ys, RangeTail hi step lo ys → ys = xs) ∧
+      ((∀ a ∈ xs, ∀ r, Num.binop .add a step = .ok r → r.toRat = a.toRat + step.toRat) →
+        Arr.kaRange lo.toRat hi.toRat step.toRat = .ok (xs.map Num.toRat)) ∧
+      (lo.isExact = true → step.isExact = true →
+        Arr.kaRange lo.toRat hi.toRat step.toRat = .ok (xs.map Num.toRat))) ∧
+    ((Num.cmpLt (.int 0) step = false ∨ Num.cmpLe lo hi = false) → numKaRange lo hi step = .error .funArg) := by
+  refine ⟨fun hsz => dispatch_kaRange_num _ lo hi step hsz, ?_, ?_⟩
+  · intro xs h
+    unfold numKaRange at h
+    cases h0 : Num.cmpLt (.int 0) step with
+    | false => simp [h0] at h
+    | true =>
+      cases h1 : Num.cmpLe lo hi with
+      | false => simp [h0, h1] at h
+      | true =>
+        simp only [h0, h1, Bool.not_true, Bool.false_eq_true, if_false] at h
+        obtain ⟨tail, hx, ht⟩ := numRangeLoop_spec hi step _ lo [] xs h
+        simp only [List.reverse_nil, List.nil_append] at hx
+        have hx' : tail = xs := hx.symm
+        subst hx'
+        have hexact : (∀ a ∈ tail, ∀ r, Num.binop .add a step = .ok r → r.toRat = a.toRat + step.toRat) →
+            Arr.kaRange lo.toRat hi.toRat step.toRat = .ok (tail.map Num.toRat) := by
+          intro hex
+          have hs : (0 : Rat) < step.toRat := by simpa [Num.cmpLt, Num.toRat] using h0
+          have hl : lo.toRat ≤ hi.toRat := by simpa [Num.cmpLe] using h1
+          have hk := C12_range_step lo.toRat hi.toRat step.toRat hs hl
+          have hloop := ht.rangeLoop hex []
+          simp only [List.reverse_nil, List.nil_append] at hloop
+          rw [hk]
+          unfold Arr.kaRange at hk
+          simp only [hs, hl, not_true_eq_false, if_false] at hk
+          cases hr : Arr.rangeLoop hi.toRat step.toRat (((hi.toRat - lo.toRat) / step.toRat).floor.toNat + 2) lo.toRat [] with
+          | none => rw [hr] at hk; cases hk
+          | some L =>
+            rw [hr] at hk
+            simp only [Except.ok.injEq] at hk
+            have m1 := rangeLoop_mono_le _ _ _ (max (tail.length + 1) (((hi.toRat - lo.toRat) / step.toRat).floor.toNat + 2))
+              (Nat.le_max_left _ _) _ _ _ hloop
+            have m2 := rangeLoop_mono_le _ _ _ (max (tail.length + 1) (((hi.toRat - lo.toRat) / step.toRat).floor.toNat + 2))
+              (Nat.le_max_right _ _) _ _ _ hr
+            rw [m1] at m2
+            simp only [Option.some.injEq] at m2
+            rw [← hk, m2]
+        refine ⟨rfl, rfl, ht, fun ys hy => hy.unique ht, hexact, ?_⟩
+        intro hlo hst
+        apply hexact
+        intro a ha r hr
+        exact binop_add_exact a step r (ht.all_exact hlo hst a ha) hst hr
+  · intro h
+    unfold numKaRange
+    rcases h with h | h
+    · simp [h]
+    · cases h0 : Num.cmpLt (.int 0) step <;> simp [h]
+
+/-- non-vacuity: exact but non-canonical operands (`4/2` as a Fraction) satisfy every hypothesis of clause 3,
+    and the size condition is decidable on concrete operands -/
+example : (Num.frac (4/2)).isExact = true ∧ (Num.frac (1/2)).isExact = true ∧
+    (((Num.int 10).toRat - (Num.frac (4/2)).toRat) / (Num.frac (1/2)).toRat).floor.toNat + 3 ≤ maxRange := by
+  refine ⟨rfl, rfl, ?_⟩
+  decide +kernel
+
+/-- the dispatch-free loop on exact operands, evaluated by the kernel -/
+example : (numKaRange (.int 1) (.int 3) (.frac (1/2))).toOption.map (·.map Num.render)
+      = some ["i:1", "q:3/2", "i:2", "q:5/2", "i:3"] ∧
+    (match numKaRange (.int 1) (.int 3) (.int 0) with | .error .funArg => true | _ => false) = true := by
+  constructor <;> decide +kernel
+
 end KaVerif
